@@ -124,24 +124,27 @@ def validate_shard(args):
     return out
 
 
-def run_list_prop(prop, tier, seed, only_kinds=None):
+def run_list_prop(prop, tier, seed, only_kinds=None, harness_variant='std', collect=None, inst_limit=None):
+    """collect: list to which (jobs, violations) are appended instead of writing evidence (composite checks)"""
     t0 = time.time()
     spec = LIST_PROPS[prop]
     kinds = [k for k in spec['kinds'] if not only_kinds or k in only_kinds]
-    work = vlib.Work(prop)
+    work = vlib.Work(prop + ('' if harness_variant == 'std' else '-' + harness_variant))
     try:
-        binary = vlib.build_harness('std')
+        binary = vlib.build_harness(harness_variant)
         variants = spec.get('variants', [('tracked', 'std')])
         jobs = []
         for vi, variant in enumerate(variants):
             for kind in kinds:
                 insts = INSTANCES[kind][tier]
+                if inst_limit:
+                    insts = insts[:inst_limit]
                 if vi > 0 and not spec.get('all_variants_full'):
                     insts = insts[:1]            # extra key-type / hasher instantiations: first instances only
                 for inst in insts:
                     jobs.append(dict(kind=kind, inst=inst, variant=variant,
                                      quick_max_states=spec.get('quick_max_states') if tier == 'quick' else None))
-            if vi == 0 and not spec.get('no_random_only'):
+            if vi == 0 and not spec.get('no_random_only') and not inst_limit:
                 for ro in RANDOM_ONLY[tier]:
                     if ro['kind'] in kinds:
                         jobs.append(dict(kind=ro['kind'], inst=ro, variant=variant, random_only=True))
@@ -163,9 +166,23 @@ def run_list_prop(prop, tier, seed, only_kinds=None):
         log('[%s] validating %d shards' % (prop, len(tasks)))
         res = vlib.pool_map(validate_shard, tasks, max(2, vlib.NCPU - 2))
         viols = [d for r in res for d in r]
+        if collect is not None:
+            for j in jobs:
+                j['tag'] = j['tag'] + ('' if harness_variant == 'std' else '-' + harness_variant)
+                j['samples'] = sample_records(j)
+            collect.append((jobs, viols))
+            return 0
         return finish(prop, tier, seed, jobs, viols, t0, work)
     finally:
         work.cleanup()
+
+
+def sample_records(j, n=3):
+    if j.get('shards'):
+        with open(j['shards'][0]) as f:
+            lines = [next(f, None) for _ in range(n)]
+        return dict(instance=j['tag'], first_records=[json.loads(l) for l in lines if l])
+    return None
 
 
 def finish(prop, tier, seed, jobs, viols, t0, work):
@@ -187,10 +204,9 @@ def finish(prop, tier, seed, jobs, viols, t0, work):
             by_kind[k] = by_kind.get(k, 0) + v
     samples = []
     for j in jobs[:3]:
-        if j.get('shards'):
-            with open(j['shards'][0]) as f:
-                lines = [next(f, None) for _ in range(3)]
-            samples.append(dict(instance=j['tag'], first_records=[json.loads(l) for l in lines if l]))
+        sr = j.get('samples') or sample_records(j)
+        if sr:
+            samples.append(sr)
     coverage = dict(
         states=states, transitions=trans, traces_validated_against_impl=tests,
         evaluations=events, distinct_nontrivial=nontriv,
@@ -349,6 +365,9 @@ def main(argv):
     seed = int(os.environ.get('VERIF_SEED', '1'))
     tier = a.tier if a.tier in ('quick', 'thorough') else 'quick'
     try:
+        import extra
+        if a.prop in extra.CHECKS:
+            return extra.CHECKS[a.prop](tier, seed, a.replay)
         if a.prop in LIST_PROPS:
             if a.replay:
                 return replay_list(a.prop, a.replay)
